@@ -280,7 +280,10 @@ def check(repo, tier):
                     run.add(F(entry, 'D2', 'single-cell term', f'{scen}: the single-cell matrix of cell {k} is {opalg_of(svals[0]) if svals else None}, the definition gives {expected_single(scr[k])}'))
             for b, uid in uids.items():
                 e = [x for x in sc.events('svd') if x['uid'] == uid][0]
-                root = e['array']
+                from . import mx as _mx
+                root = _mx.origin_array(uid)
+                if root is None:
+                    root = e['array']          # (through QR / RQ pre-factorisations and transpositions of the decomposed matrix)
                 # (only through views that keep content and layout: a sum  zeros + terms  whose terms have no normal form must not be taken for its first operand)
                 while isinstance(root, Arr) and opalg_of(root) is None and root.parents and (root.origin in ('copy', 'ascontiguousarray', 'asarray', 'astype') or root.tags.get('is_reshape')):
                     root = root.parents[0]          # (the matricisation of the super-core that is handed to the SVD, copies)
@@ -298,22 +301,44 @@ def check(repo, tier):
         scen = f'slim_mme_hom(cells={d}, cyclic={cyclic})'
         captured = {}
 
+        class _Result:
+            """stands for the operator slim_mme returns; what the wrapper does with it afterwards is not followed"""
+            touched = False
+        placeholder = _Result()
+
         def fake(it, state_space, scr, tcr, threshold=0):
+            captured.setdefault('all', []).append((state_space, scr, tcr, threshold))
             captured['args'] = (state_space, scr, tcr, threshold)
-            return 'OPERATOR'
+            return placeholder
 
         def body(sc):
             ss = [sc.atom('n')] * d
             sc.inputs = (ss,)
             return sc.call(entry, ss, [list(r) for r in SCR], [list(r) for r in TCR], cyclic=cyclic, threshold=0.125)
-        for ch, sc, res, exc in l2.explore(repo, body, typed=False, intercept={f'{SLIM}.slim_mme': fake}):
-            if exc is not None:
+        def args_ok(a, ss_in):
+            return a is not None and len(captured.get('all', [])) == 1 and list(a[0]) == list(ss_in) and len(a[1]) == d and all(x == SCR for x in a[1]) and \
+                len(a[2]) == (d if cyclic else d - 1) and all(x == TCR for x in a[2]) and a[3] == 0.125
+        try:
+            paths = l2.explore(repo, body, typed=False, intercept={f'{SLIM}.slim_mme': fake})
+        except AnalysisError:
+            # the wrapper does something with the returned operator that is not followed: the call it made to slim_mme is still a verdict if it is wrong
+            a = captured.get('args')
+            if a is None or len(a[1]) == d and len(a[2]) == (d if cyclic else d - 1) and a[3] == 0.125:
+                raise
+            run.oblige('D3', (entry, scen), False)
+            run.add(F(entry, 'D3', 'replication of the reaction lists', f'{scen}: slim_mme is called with {len(a[1])} single-cell lists and {len(a[2])} two-cell lists '
+                      f'(expected {d} and {d if cyclic else d - 1}), threshold {a[3]}'))
+            continue
+        for ch, sc, res, exc in paths:
+            a = captured.get('args')
+            if exc is not None and a is None:
                 run.oblige('D3', (entry, scen), False)
                 l2rules.raised_finding(run, 'C12', 'D3', repo, entry, scen, exc)
                 continue
-            a = captured.get('args')
-            ok = res == 'OPERATOR' and a is not None and a[0] is sc.inputs[0] and len(a[1]) == d and all(x == SCR for x in a[1]) and \
+            ok = a is not None and len(captured.get('all', [])) == 1 and list(a[0]) == list(sc.inputs[0]) and len(a[1]) == d and all(x == SCR for x in a[1]) and \
                 len(a[2]) == (d if cyclic else d - 1) and all(x == TCR for x in a[2]) and a[3] == 0.125
+            if ok and (exc is not None or res is not placeholder or _Result.touched):
+                raise AnalysisError(f'{scen}: the operator returned by slim_mme is post-processed by the wrapper in a way the analysis does not follow')
             run.oblige('D3', (entry, scen), ok)
             if not ok:
                 run.add(F(entry, 'D3', 'replication of the reaction lists', f'{scen}: slim_mme is called with {len(a[1]) if a else "?"} single-cell lists and {len(a[2]) if a else "?"} two-cell lists '
